@@ -783,7 +783,8 @@ impl Property for P15 {
         for g in [u32::MAX, 65_536, 100_000] {
             let src = if g == u32::MAX { vec![] } else { vec![Step::Xfer(g); 12] };
             let vals = vec![ValSpec { ty: Ty::Bytes, size: 3, seed: 7 }, bytes_spec_with_encoding_len(DEFAULT_MAX_LEN), ValSpec { ty: Ty::Bytes, size: 3, seed: 8 }];
-            out.push(C15 { src, ..base(Ty::Bytes, vals) });
+            out.push(C15 { src: src.clone(), ..base(Ty::Bytes, vals.clone()) });
+            out.push(C15 { src, init_buf: 699_999, ..base(Ty::Bytes, vals) });
         }
         // a frame of more than 16 MiB (most significant prefix byte non-zero), whole and in 5 MiB pieces with a cancellation
         for g in [u32::MAX, 5 << 20] {
